@@ -11,7 +11,8 @@ TECHNIQUE = ("abstract interpretation with a units-of-measure (Laurent polynomia
 
 def scale_store_rules(prog, res: Result, cr: CaseRunner):
     """R01.3: the scale is fixed once, from the *normalised* definition."""
-    mk = prog.method("QuantityMeta", "_make_unit")
+    from ..anchors import unit_creator, ref_unit_creator, UNIT_CREATION_ENTRY_POINTS
+    mk = unit_creator(prog)
 
     def setup_term(c: Ctx):
         c.new_type("T")
@@ -63,7 +64,7 @@ def scale_store_rules(prog, res: Result, cr: CaseRunner):
 
     cr.run("R01.3", mk, "definition=None", setup_none, judge_none, flag_kinds=())
 
-    mr = prog.method("QuantityMeta", "_make_ref_unit")
+    mr = ref_unit_creator(prog)
 
     def judge_ref(o):
         if o.kind == "raise":
@@ -80,9 +81,9 @@ def scale_store_rules(prog, res: Result, cr: CaseRunner):
     # B1: who may write the scale / definition / type of a unit
     writes = inventory(prog)
     cg = CallGraph(prog)
-    owners = {"QuantityMeta._make_unit": {"="}, "QuantityMeta._make_ref_unit": {"="},
-              # same attribute name on quantity *classes* (their definition term), not a unit field:
-              "ClassWithDefinitionMeta.__new__": {"="}}
+    # owners: the public unit-creation entry points (private helpers reachable only from them inherit
+    # ownership); ClassWithDefinitionMeta.__new__ writes the same attribute name on quantity *classes*
+    owners = dict(UNIT_CREATION_ENTRY_POINTS)
     n = 0
     for state in ("_equiv", "_definition", "_qty_cls"):
         n += len(check_ownership(res, "R01.3b", writes, state, owners, cg))
@@ -107,7 +108,8 @@ def run(prog, tier) -> Result:
                        "unit in such a type is not modelled)",
                        "unit scales are positive"]
     cr = CaseRunner(prog, res, max_depth=8 if tier == "quick" else 12)
-    gf = prog.method("Unit", "_get_factor")
+    from ..anchors import factor_method
+    gf = factor_method(prog)
     ea = prog.method("Quantity", "equiv_amount")
     cv = prog.method("Quantity", "convert")
 
